@@ -944,6 +944,34 @@ func structuralRows() []row {
 			}
 			return func(key string) zap.Field { return zap.Stringers(key, vs) }, el
 		})
+		// a pointer Stringer whose String copes with a nil receiver: a nil element is an ordinary value (its String() output),
+		// also behind the interface element type
+		gst := []*guardedStringer{{"g"}, nil, {"h\n"}}
+		gstr := func(g *guardedStringer) string { return g.String() }
+		add(&stc, "[]*guardedStringer", len(gst), func(idx []int, isNil bool) (func(string) zap.Field, []string) {
+			var vs []*guardedStringer
+			var el []string
+			if !isNil {
+				vs = []*guardedStringer{}
+			}
+			for _, i := range idx {
+				vs = append(vs, gst[i])
+				el = append(el, vStr(gstr(gst[i])))
+			}
+			return func(key string) zap.Field { return zap.Stringers(key, vs) }, el
+		})
+		add(&stc, "[]fmt.Stringer", len(gst), func(idx []int, isNil bool) (func(string) zap.Field, []string) {
+			var vs []fmt.Stringer
+			var el []string
+			if !isNil {
+				vs = []fmt.Stringer{}
+			}
+			for _, i := range idx {
+				vs = append(vs, gst[i])
+				el = append(el, vStr(gstr(gst[i])))
+			}
+			return func(key string) zap.Field { return zap.Stringers(key, vs) }, el
+		})
 		sst := []sliceStringer{{"a", "b"}, nil}
 		add(&stc, "[]sliceStringer", len(sst), func(idx []int, isNil bool) (func(string) zap.Field, []string) {
 			var vs []sliceStringer
